@@ -443,6 +443,21 @@ func Generate(rng *rand.Rand, prop, tier string, gomaxprocs int) *Desc {
 		}
 		d.Scheds = append(d.Scheds, s)
 	}
+	if prop == "C12" {
+		// go1.26.8's race runtime dies (SIGSEGV in __tsan::SlotLock under runtime.(*timer).maybeRunChan)
+		// when a select runs a due ticker of a synctest bubble while several dozen goroutines exist:
+		// every death seen had >= 55 workers and a ticker. Race-detector runs keep the ticker for
+		// ordinary sizes only (plain builds run the wide schedulers with tickers).
+		w := 0
+		for i := range d.Scheds {
+			w += d.Limit(&d.Scheds[i])
+		}
+		if w > 32 {
+			for i := range d.Scheds {
+				d.Scheds[i].Emitter, d.Scheds[i].SlowEmit = false, false
+			}
+		}
+	}
 	d.Policy = pickPolicy(rng, prop)
 	tot, maxLen, workers := 0, 0, 0
 	for i := range d.Scheds {
